@@ -204,6 +204,15 @@ def run_c01(ctx):
     t2 = ctx.path("rnd.ndjson")
     if run_harness_c01(ctx, bindir, [abi, t2, "random", nrand], "random"):
         rows, txs = validate(ctx, "C01", t2, "random")
+        # coverage gate: requests whose caller ids the file system refuses to translate (id_remap_with_nodeid fails before
+        # dispatch) - FORGET / BATCH_FORGET among them on both transports - were really run and really refused
+        ref = [t for t in txs if t["x"].get("remap_refused")]
+        refused = [t for t in ref if any(c.get("refused") for c in t.get("calls", []) if c.get("m") == "id_remap")]
+        ctx.extra["remap_refused_transactions"] = len(refused)
+        for op in ("FORGET", "BATCH_FORGET"):
+            for trn in ("fusedev", "virtiofs"):
+                if not any(t["op"] == op and t["tr"] == trn for t in refused):
+                    raise C.ToolError("coverage gate: no %s with a refused id translation on %s" % (op, trn))
         for t in txs[:2]:
             ctx.sample({"random_bytes_hex": t["x"].get("hex", "")[:160], "cap": t["x"]["cap"], "tr": t["tr"], "observed": t["out"]})
     t3 = ctx.path("wf.ndjson")
